@@ -124,5 +124,60 @@ fn main() {
             par.push(h.join().unwrap_or_else(|_| "panic".into()));
         }
     }
+    // lockstep phase: all 8 threads are released together for EVERY query; even threads ask for interval k, odd
+    // threads for its twin on the opposite strand (same contig, same numeric extent) — calls that overlap in time
+    // and differ only in the strand, or not at all
+    let twins: Vec<Interval> = ivs
+        .iter()
+        .map(|iv| {
+            let other = match iv.strand() {
+                Strand::Positive => Strand::Negative,
+                Strand::Negative => Strand::Positive,
+            };
+            Interval::try_new(
+                Coordinate::new(iv.contig().as_str(), other, iv.end().position().get()),
+                Coordinate::new(iv.contig().as_str(), other, iv.start().position().get()),
+            )
+            .unwrap_or_else(|_| iv.clone())
+        })
+        .collect();
+    let m = match machine::Builder.try_build_from(chainfile::Reader::new(&data[..])) {
+        Ok(m) => m,
+        Err(e) => {
+            println!("builderr {}", e);
+            return;
+        }
+    };
+    let twin_expected: Vec<String> = twins.iter().map(|iv| answer(&m, iv)).collect();
+    drop(m);
+    let m = Arc::new(machine::Builder.try_build_from(chainfile::Reader::new(&data[..])).unwrap());
+    let twins = Arc::new(twins);
+    let twin_expected = Arc::new(twin_expected);
+    let barrier = Arc::new(std::sync::Barrier::new(8));
+    let threads: Vec<_> = (0..8usize)
+        .map(|t| {
+            let (m, ivs, twins, expected, twin_expected, barrier) =
+                (Arc::clone(&m), Arc::clone(&ivs), Arc::clone(&twins), Arc::clone(&expected), Arc::clone(&twin_expected), Arc::clone(&barrier));
+            std::thread::spawn(move || {
+                let mut bad: Option<String> = None;
+                for _round in 0..20 {
+                    for k in 0..ivs.len() {
+                        barrier.wait();
+                        for _ in 0..3 {
+                            let (iv, want) = if t % 2 == 0 { (&ivs[k], &expected[k]) } else { (&twins[k], &twin_expected[k]) };
+                            let a = answer(&m, iv);
+                            if &a != want && bad.is_none() {
+                                bad = Some(format!("lockstep thread {} query {} got [{}] expected [{}]", t, k, a, want));
+                            }
+                        }
+                    }
+                }
+                bad.unwrap_or_else(|| "ok".to_string())
+            })
+        })
+        .collect();
+    for h in threads {
+        par.push(h.join().unwrap_or_else(|_| "panic".into()));
+    }
     println!("par {}", par.join("|"));
 }
